@@ -523,6 +523,14 @@ func (s *src) plant(kind string) {
 	id := g.id()
 	switch kind {
 	case "decl":
+		// a harmless look-alike with the very same body (hence the same fingerprint) that
+		// sorts before the planted function: both must be scanned
+		s.fn("func", "top", true, "func Aaa%dLookZ(p string) int {", id)
+		s.ind++
+		s.plantBody()
+		s.ind--
+		s.ln("}")
+		s.ln("")
 		host := fmt.Sprintf("Plant%dZ", id)
 		fr := s.fn("func", "top", true, "func %s(p string) int {", host)
 		s.ind++
